@@ -170,9 +170,7 @@ Proof.
   intros L W NS. destruct t as [d|l|p|z|f|b|n|b]; try discriminate; cbn [leaf_bytes leaf_kind wf_leaf] in *.
   - exfalso. apply (NS p). reflexivity.
   - repeat split; [apply int_clean|apply int_classify|discriminate].
-  - destruct f as [neg mag tiny]. cbn [fmag ftiny] in W. apply andb_true_iff in W as [W1 W2].
-    destruct tiny; [discriminate|]. destruct (float_re_dec neg mag ltac:(lia)) as [C CL].
-    repeat split; [exact CL|exact C|discriminate].
+  - destruct (float_leaf f W) as (C & CL & _). repeat split; [exact CL|exact C|discriminate].
   - destruct b; repeat split; discriminate.
   - destruct (prop_classify n W) as (C & CL & _). repeat split; [exact CL|exact C|discriminate].
   - apply andb_true_iff in W as [W1 W2]. repeat split; [exact W2|].
@@ -239,7 +237,7 @@ Qed.
    CR-less or tab-less variants, everything on one line, no space after a string, ... *)
 Theorem parse_any_layout : forall d ps trail,
   wf_tree (TDict d) = true -> map snd ps = ptoks (TDict d) -> ws_ok true ps = true ->
-  forallb is_div trail = true -> parse (render ps ++ trail) = Ok d.
+  forallb is_div trail = true -> parse (render ps ++ trail) = Ok (untiny_kvs d).
 Proof.
   intros d ps trail W E WS TR. destruct (ptoks_all (TDict d) W) as [OK TK].
   unfold parse. rewrite (tokenize_layout ps true trail WS) by (try rewrite E; assumption).
@@ -249,7 +247,7 @@ Qed.
 (* the same without the container (the Txt2 / EngineData2 form) *)
 Theorem parse_any_layout_bare : forall d ps trail,
   wf_tree (TDict d) = true -> map snd ps = eptoks d -> ws_ok true ps = true ->
-  forallb is_div trail = true -> parse (render ps ++ trail) = Ok d.
+  forallb is_div trail = true -> parse (render ps ++ trail) = Ok (untiny_kvs d).
 Proof.
   intros d ps trail W E WS TR. destruct (ptoks_all (TDict d) W) as [OK TK].
   rewrite ptoks_dict in OK, TK. rewrite vtoks_dict in TK.
